@@ -602,3 +602,5 @@ def run(ctx):
     ctx.run_rule("R11.3", "` (escaped)` is appended exactly on the `rendering != raw text` edge; both operands from trim_newlines(line) [E-PATH]", r11_3, floor=8)
     ctx.run_rule("R11.5", "sibling agreement (unicode): escape decision, backslash-doubling flag and has_unprintable use the same character class; Escaper dispatch per mode [E-TABLE]", r11_5, floor=5)
     ctx.run_rule("R11.4", "unicode mode emits a character unchanged only on the !is_other edge; invalid UTF-8 falls back to ascii [E-PATH]", r11_4, floor=3)
+    from . import c08
+    ctx.run_rule("R11.6", "the reader's grammar: exactly one white space separates the expression from the trailing group, so trailing white space of an escaped line stays content (shared with C08 R8.3) [E-TABLE]", c08.r8_3, floor=2)
